@@ -73,8 +73,12 @@ type zzC06Vec struct {
 	Tab     []zzC06Entry
 	Ordered bool
 	Verd    map[string]*zzC06Verdict
-	// VerdC: additional outcomes when CNAME answers are in another case.
+	// VerdC: the outcomes when CNAME answers are in another case and read
+	// verbatim; VerdK: the outcomes when one known deviation ("tie", "exact",
+	// "late", "all") is admitted.  Both only serve to attribute a disagreement
+	// to a finding.
 	VerdC map[string]*zzC06Verdict
+	VerdK map[string]map[string][]zzC06Out
 }
 
 type zzC06Header struct {
@@ -88,6 +92,7 @@ type zzC06RawVec struct {
 	T   []json.RawMessage `json:"t"`
 	V   []json.RawMessage `json:"v"`
 	VC  []json.RawMessage `json:"vc"`
+	VK  []json.RawMessage `json:"vk"`
 	O   int               `json:"o"`
 }
 
@@ -125,6 +130,30 @@ func zzC06Decode(hdr *zzC06Header, raw *zzC06RawVec) (v *zzC06Vec, err error) {
 	if len(raw.VC) > 0 {
 		if v.VerdC, err = zzC06DecodeVerdicts(name, raw.VC); err != nil {
 			return nil, err
+		}
+	}
+
+	v.VerdK = map[string]map[string][]zzC06Out{}
+	for _, rk := range raw.VK {
+		// [name, qtype, deviation, outcomes]
+		var tup []json.RawMessage
+		var flag string
+		if err = json.Unmarshal(rk, &tup); err != nil || len(tup) != 4 || json.Unmarshal(tup[2], &flag) != nil {
+			return nil, fmt.Errorf("bad vk %s: %v", rk, err)
+		}
+
+		three, _ := json.Marshal([]json.RawMessage{tup[0], tup[1], tup[3]})
+		var m map[string]*zzC06Verdict
+		if m, err = zzC06DecodeVerdicts(name, []json.RawMessage{three}); err != nil {
+			return nil, err
+		}
+
+		for k, vd := range m {
+			if v.VerdK[k] == nil {
+				v.VerdK[k] = map[string][]zzC06Out{}
+			}
+
+			v.VerdK[k][flag] = vd.Outs
 		}
 	}
 
@@ -184,6 +213,9 @@ type zzC06ServeRow struct {
 	FromUp string `json:"fromup"`
 	Rcode  string `json:"rcode"`
 	CNAME  bool   `json:"cname"`
+	// CNAMEOpt: the reply may or may not carry the CNAME record (an error
+	// reply has no answer section).
+	CNAMEOpt bool `json:"cnameopt"`
 }
 
 // zzC06ServeRows is set from the header of the vector file.
@@ -226,7 +258,7 @@ func zzC06Serve(o *zzC06Out, h []string, qt string, mode func(name string) (m st
 			e.Ask = [][2]string{{a, qt}}
 		}
 
-		e.FromUp, e.Rcode = sym(r.FromUp), r.Rcode
+		e.FromUp, e.Rcode, e.CNAMEOpt = sym(r.FromUp), r.Rcode, r.CNAMEOpt
 		if kind != "pass" {
 			// The CNAME record of a followed rewrite is always there.
 			e.CNAME = zzC06Name(o.Canon)
@@ -475,22 +507,24 @@ func (u *zzC06Upstream) setEpoch(e int) {
 	u.epoch = e
 }
 
-// mode is what the upstream does when asked for name (seeded): it answers
-// five names out of eight, has no data for one, says that one does not exist
-// and fails for one.
+// mode is what the upstream does when asked for name (seeded): it answers six
+// names out of ten, has no data for one, says that one does not exist, replies
+// with a server failure for one and cannot be reached for one.
 func (u *zzC06Upstream) mode(name string) (m string) {
 	h := fnv.New32a()
 	u.mu.Lock()
 	epoch := u.epoch
 	u.mu.Unlock()
 	_, _ = h.Write([]byte(fmt.Sprintf("%d/%d/%s", u.seed, epoch, strings.ToLower(name))))
-	switch h.Sum32() % 8 {
+	switch h.Sum32() % 10 {
 	case 5:
 		return "nodata"
 	case 6:
 		return "nxdomain"
 	case 7:
 		return "servfail"
+	case 8:
+		return "error"
 	default:
 		return "answer"
 	}
@@ -501,6 +535,12 @@ func (u *zzC06Upstream) Exchange(req *dns.Msg) (resp *dns.Msg, err error) {
 	name := strings.ToLower(strings.TrimSuffix(q.Name, "."))
 	data := zzC06UpData(name, q.Qtype)
 	switch m := u.mode(name); m {
+	case "error":
+		u.mu.Lock()
+		u.log = append(u.log, [2]string{name, dns.TypeToString[q.Qtype]})
+		u.mu.Unlock()
+
+		return nil, fmt.Errorf("zzC06Upstream: %s is unreachable", name)
 	case "nodata", "nxdomain", "servfail":
 		u.mu.Lock()
 		u.log = append(u.log, [2]string{name, dns.TypeToString[q.Qtype]})
@@ -768,6 +808,8 @@ type zzC06Obs struct {
 	FromUp string `json:"fromup"`
 	// Odd describes anything else in the answer.
 	Odd string `json:"odd,omitempty"`
+	// CNAMEOpt (expectations only): the CNAME record may be missing.
+	CNAMEOpt bool `json:"cnameopt,omitempty"`
 }
 
 var zzC06QTypes = map[string]uint16{"A": dns.TypeA, "AAAA": dns.TypeAAAA, "TXT": dns.TypeTXT}
@@ -850,8 +892,18 @@ func zzC06Uniq(ss []string) (r []string) {
 	return r
 }
 
-func zzC06SameObs(e, g *zzC06Obs, passed bool) (ok bool) {
-	if len(e.Ask) != len(g.Ask) || g.Odd != "" || !g.QOK || e.CNAME != g.CNAME || e.FromUp != g.FromUp {
+func zzC06SameObs(e, g *zzC06Obs, anyQuestion bool) (ok bool) {
+	// The reply always carries the client's own question (anyQuestion is only
+	// set when attributing a disagreement to the finding about error replies).
+	if !g.QOK && !anyQuestion {
+		return false
+	}
+
+	if e.CNAME != g.CNAME && !(e.CNAMEOpt && g.CNAME == "") {
+		return false
+	}
+
+	if len(e.Ask) != len(g.Ask) || g.Odd != "" || e.FromUp != g.FromUp {
 		return false
 	}
 
@@ -875,14 +927,90 @@ func zzC06SameObs(e, g *zzC06Obs, passed bool) (ok bool) {
 }
 
 func (z *zzC06Srv) admissible(outs []zzC06Out, h []string, qt string, g *zzC06Obs) (ok bool) {
+	return z.admits(outs, h, qt, g, false, false)
+}
+
+// admits: is g what Serve says for one of outs?  fwd admits the deviation
+// "canonical name in the table without a value is forwarded", errq the
+// deviation "an error reply carries the rewritten question".
+func (z *zzC06Srv) admits(outs []zzC06Out, h []string, qt string, g *zzC06Obs, fwd, errq bool) (ok bool) {
 	for i := range outs {
-		e := zzC06Serve(&outs[i], h, qt, z.ups.mode)
-		if zzC06SameObs(&e, g, outs[i].R == "pass") {
-			return true
+		o := outs[i]
+		for pass := 0; pass < 2; pass++ {
+			if pass == 1 {
+				if !fwd || o.R != "rw" || len(o.Canon) == 0 || len(o.IPs) > 0 || o.Up {
+					break
+				}
+
+				o.Up = true
+			}
+
+			e := zzC06Serve(&o, h, qt, z.ups.mode)
+			anyQ := errq && len(e.Ask) == 1 && z.ups.mode(e.Ask[0][0]) == "error"
+			if zzC06SameObs(&e, g, anyQ) {
+				return true
+			}
 		}
 	}
 
 	return false
+}
+
+// deviation attributes an observation that the specification does not admit
+// to the known deviation(s) that do: "fwd", "err", "tie", "exact", "late",
+// "case", combinations "x+fwd", or "all"; "" if none does.
+func (z *zzC06Srv) deviation(v *zzC06Vec, q zzC06Query, cased bool, want []zzC06Out, g *zzC06Obs) (dev string) {
+	k := zzC06Key(q.h, q.qt)
+	sets := []struct {
+		name string
+		outs []zzC06Out
+	}{{"", want}}
+	for _, f := range []string{"tie", "exact", "late"} {
+		if outs, ok := v.VerdK[k][f]; ok {
+			sets = append(sets, struct {
+				name string
+				outs []zzC06Out
+			}{f, outs})
+		}
+	}
+
+	if vc, ok := v.VerdC[k]; cased && ok {
+		sets = append(sets, struct {
+			name string
+			outs []zzC06Out
+		}{"case", vc.Outs})
+	}
+
+	if outs, ok := v.VerdK[k]["all"]; ok {
+		sets = append(sets, struct {
+			name string
+			outs []zzC06Out
+		}{"all", outs})
+	}
+
+	for _, extra := range []struct {
+		name      string
+		fwd, errq bool
+	}{{"", false, false}, {"fwd", true, false}, {"err", false, true}, {"fwd+err", true, true}} {
+		for _, st := range sets {
+			if st.name == "" && extra.name == "" {
+				continue
+			}
+
+			if z.admits(st.outs, q.h, q.qt, g, extra.fwd, extra.errq) {
+				switch {
+				case st.name == "":
+					return extra.name
+				case extra.name == "":
+					return st.name
+				default:
+					return st.name + "+" + extra.name
+				}
+			}
+		}
+	}
+
+	return ""
 }
 
 type zzC06Query struct {
@@ -916,6 +1044,7 @@ func TestZZVerifC06Pipeline(t *testing.T) {
 	var qs []zzC06Query
 	n, evals, bad, hangs, flaky, slow, setupErrs, orders := 0, 0, 0, 0, 0, 0, 0, 0
 	classes := map[string]int{}
+	devs := map[string]int{}
 	zzReadNDJSON(t, "VERIF_IN", func(line []byte) {
 		raw := &zzC06RawVec{}
 		if err := json.Unmarshal(line, raw); err != nil {
@@ -1010,9 +1139,6 @@ func TestZZVerifC06Pipeline(t *testing.T) {
 				want := zzC06PassOnly
 				if vd, ok := v.Verd[zzC06Key(q.h, q.qt)]; ok {
 					want = vd.Outs
-					if vc, okc := v.VerdC[zzC06Key(q.h, q.qt)]; cased && okc {
-						want = append(append([]zzC06Out{}, want...), vc.Outs...)
-					}
 				}
 
 				name := zzC06Spell(zzC06Name(q.h), n+oi+qi)
@@ -1034,6 +1160,20 @@ func TestZZVerifC06Pipeline(t *testing.T) {
 					}
 
 					continue
+				}
+
+				// A disagreement that known deviations explain is reproduced
+				// and recorded for the first few of each kind only.
+				dev := ""
+				if ok {
+					dev = z.deviation(v, q, cased, want, &got)
+				}
+
+				if dev != "" {
+					devs[dev]++
+					if devs[dev] > 20 {
+						continue
+					}
 				}
 
 				// Reproduce: the previous table is set afresh, all queries are
@@ -1081,8 +1221,11 @@ func TestZZVerifC06Pipeline(t *testing.T) {
 					flaky++
 					rec["kind"], rec["got"], rec["first"] = "flaky", got2, got
 				default:
-					bad++
 					rec["kind"], rec["got"] = "bad", got2
+					rec["deviation"] = z.deviation(v, q, cased, want, &got2)
+					if rec["deviation"] == "" {
+						bad++
+					}
 				}
 
 				w.put(rec)
@@ -1105,7 +1248,7 @@ func TestZZVerifC06Pipeline(t *testing.T) {
 	w.put(map[string]any{
 		"kind": "summary", "vectors": n, "orderings": orders, "evals": evals, "bad": bad, "hangs": hangs,
 		"flaky": flaky, "slow": slow, "setup_errors": setupErrs, "classes": classes,
-		"tables_reached_by_update": z.updates, "saves": z.saves,
+		"tables_reached_by_update": z.updates, "saves": z.saves, "deviations": devs,
 	})
 }
 
